@@ -144,7 +144,7 @@ theorem conditionOk_times {cfg : Cfg} {env : Env} {st st' st1' : St} {a : Assert
     have e1 : (sanCond env c).nb.isNone = c.nb.isNone := by simp [sanCond]
     have e2 : (sanCond env c).nooa.isNone = c.nooa.isNone := by simp [sanCond]
     have e3 : (sanCond env c).audiences = c.audiences := rfl
-    have e4 : (sanCond env c).extraKnown = c.extraKnown := rfl
+    have e4 : (sanCond env c).extra = c.extra := rfl
     have e5 : (sanCond env c).nb.isSome = c.nb.isSome := by simp [sanCond]
     have e6 : (sanCond env c).nooa.isSome = c.nooa.isSome := by simp [sanCond]
     rw [e1, e2, e3, e4, e5, e6] at h
@@ -377,11 +377,12 @@ theorem getSubject_times {cfg : Cfg} {env : Env} {st st' st1' : St} {a : Asserti
         · cases h
         next hn =>
           rw [if_neg hn]
-          cases h
-          refine ⟨_, rfl, ?_⟩
-          cases s.nameId with
-          | none => exact hrel2
-          | some nid => exact ⟨hrel2.1, rfl, hrel2.2.2⟩
+          have hid : subjectId { s with confs := s.confs.map (sanSc env) } = subjectId s := rfl
+          rw [hid] at h
+          split at h
+          · cases h
+          next hnone => cases h; exact ⟨_, rfl, hrel2⟩
+          next nid hsome => cases h; exact ⟨_, rfl, hrel2.1, rfl, hrel2.2.2⟩
 
 theorem checkAssertion_times {cfg : Cfg} {env : Env} {rs v : Bool} {st st' st1' : St} {a : Assertion}
     (hrel : Rel st st') (hin : insideA cfg env a)
